@@ -1,5 +1,5 @@
 """C02 -- stream framing is lossless, ordered and independent of fragmentation."""
-from pyvc.runner import Check, TaskSpec, run_tasks
+from pyvc.runner import Check, TaskSpec, run_tasks, PY_FULL
 from contracts import buffer as B
 from checks import common, c11
 
@@ -7,7 +7,11 @@ from checks import common, c11
 def specs():
     return c11.specs() + [
         TaskSpec("scan-completeness", "contracts.buffer", "task_find_complete", (), replay_kind="buffer.process", timeout_ms=4000),
-        TaskSpec("junk-removal-exactness", "contracts.buffer", "task_cleanup_exact", (), replay_kind="buffer.process", timeout_ms=4000)]
+        TaskSpec("junk-removal-exactness", "contracts.buffer", "task_cleanup_exact", (), replay_kind="buffer.process", timeout_ms=4000),
+        # call sites: every chunk a connection reads is appended and the buffer processed before it waits for more data
+        TaskSpec("receive[client.tcp]", "contracts.transport", "task_client_receive", (), replay_kind="transport.prompt", python=PY_FULL, scenario=True),
+        TaskSpec("receive[server.tcp]", "contracts.transport", "task_c12_receive", ("tcp",), replay_kind="transport.prompt", python=PY_FULL, scenario=True),
+        TaskSpec("receive[server.tty]", "contracts.transport", "task_c12_receive", ("tty",), replay_kind="transport.prompt", python=PY_FULL, scenario=True)]
 
 
 def run(tier, seed):
